@@ -65,7 +65,11 @@ def setup():
         def on_call(a, k, r, name=name):
             TRACE.append((name, sigs[name].bind(*a, **k).arguments, r))
         hooks.rebind(orig, hooks.recording(orig, name, on_call))
-    _STATE.update(H=H, MOHV=MOHV, MOPV=MOPV, MGB=MGB, PG=DensePhasedGenotypeMatrix, GM=DenseAdditiveLinearGenomicModel)
+    import pybrops.breed.prot.sel.OptimalHaploidValueSelection as POHV
+    import pybrops.breed.prot.sel.OptimalPopulationValueSelection as POPV
+    import pybrops.breed.prot.sel.GenotypeBuilderSelection as PGB
+    _STATE.update(H=H, MOHV=MOHV, MOPV=MOPV, MGB=MGB, PG=DensePhasedGenotypeMatrix, GM=DenseAdditiveLinearGenomicModel,
+                  POHV=POHV, POPV=POPV, PGB=PGB)
     return _STATE
 
 
@@ -179,6 +183,51 @@ def gen_values(g, m):
     return nph, n, G, numpy.ascontiguousarray(u, dtype=float), uk
 
 
+def relayout(g, a):
+    """Same values, hostile memory layout: C copy, Fortran order, strided view of a larger array, reversed-stride view."""
+    r = int(g.integers(0, 6))
+    if r < 3 or a.ndim < 2:
+        return numpy.ascontiguousarray(a), "C"
+    if r == 3:
+        return numpy.asfortranarray(a), "F"
+    if r == 4:
+        big = numpy.zeros((a.shape[0] * 2,) + a.shape[1:], dtype=a.dtype)
+        big[::2] = a
+        return big[::2], "strided"
+    big = numpy.ascontiguousarray(a[..., ::-1])
+    return big[..., ::-1], "negative stride"
+
+
+def gen_model(g, S, u):
+    """Additive linear model around the marker effects u: 1-3 fixed effects, u_misc absent (None), empty, or 1-3 misc
+    random effects (which belong to no marker and must not enter any block value)."""
+    t = u.shape[1]
+    q = int(g.choice([1, 1, 2, 3]))
+    r = g.random()
+    if r < 0.4:
+        um, mcls = None, ""
+    elif r < 0.5:
+        um, mcls = numpy.empty((0, t), dtype=float), ""
+    else:
+        k = int(g.integers(1, 4))
+        um = g.normal(size=(k, t)) * float(g.choice([1.0, 1.0, 50.0]))
+        mcls = "/model with u_misc"
+    ua, lay = relayout(g, u.copy())
+    mod = S["GM"](beta=g.normal(size=(q, t)) * 3.0, u_misc=um, u_a=ua,
+                  trait=numpy.array(["y%d" % i for i in range(t)], dtype=object), model_name="m")
+    return mod, mcls, {"beta_rows": q, "u_misc_rows": 0 if um is None else int(um.shape[0]), "u_a_layout": lay}
+
+
+def dtype_rtol(*dts):
+    """Relative tolerance for results computed in the given dtypes (float64: RTOL; float32: 64 eps32)."""
+    r = O.RTOL
+    for d in dts:
+        d = numpy.dtype(d)
+        if d.kind == "f" and d.itemsize < 8:
+            r = max(r, 64.0 * float(numpy.finfo(d).eps))
+    return r
+
+
 def own_apportionment(g, nblk, lens):
     """Harness-made admissible apportionment: 1 <= per[c] <= lens[c], sum == nblk."""
     per = numpy.ones(len(lens), dtype=int)
@@ -253,7 +302,7 @@ def run_consumer(ctx, site, hookname, L, icls_app, coords, w, call):
     return res, status, blocks, icls
 
 
-def check_block_matrix(ctx, site, Hm, G, u, nblk, blocks, icls, coords, w, status="ok"):
+def check_block_matrix(ctx, site, Hm, G, u, nblk, blocks, icls, coords, w, status="ok", rtol=None):
     """finite -> conservation -> slots == block values (stops at the first failing link).  Returns oracle V or None.
     When the partition made during this very operation was already reported invalid (root cause keyed at haplobin /
     haplobin_bounds), the value clauses have no reference partition and are not evaluated: the consequences
@@ -277,7 +326,7 @@ def check_block_matrix(ctx, site, Hm, G, u, nblk, blocks, icls, coords, w, statu
     if not ctx.check("C18.finite", bool(numpy.all(numpy.isfinite(Hm))), site, "block values finite", icls, witness=w, coords=coords):
         return None
     sc = O.value_scale(u)
-    eps = O.tol(sc)
+    eps = O.tol(sc) if rtol is None else float(rtol) * sc + O.ATOL
     T = O.copy_totals(G, u)
     err = float(numpy.abs(Hm.sum(2) - T).max())
     ctx.maxnote("conservation |sum_blocks - total| / scale", err / sc if sc > 0 and err <= 1e3 * eps else 0.0)
@@ -363,12 +412,22 @@ def case_helpers(ctx, c):
         ok, bnd = guarded(ctx, "haplobin_bounds", "synthetic labels", coords, lambda: H.haplobin_bounds(lab.copy()), {"labels": lab})
         if ok:
             O.check_bounds(ctx, lab, bnd, "synthetic labels", coords, {})
-    # -- haplomat
-    w3 = dict(w, genomemat=G, u_a=u)
+    # -- haplomat, with hostile dtypes / memory layouts of the genome matrix and the effects (values unchanged)
+    ud = "float64"
+    if uk == "integers" and g.random() < 0.4:
+        ud = "int64"
+    elif g.random() < 0.12:
+        ud = "float32"
+    gd = str(g.choice(["int8", "int8", "int8", "int64", "uint8", "bool", "float64"]))
+    u_in, ulay = relayout(g, u.astype(ud))
+    G_in, glay = relayout(g, G.astype(gd))
+    u = u_in.astype(float)           # the values the library is given (float32 rounding included)
+    vcls = ("" if ud == "float64" else "/effects dtype %s" % ud) + ("" if gd == "int8" else "/genome dtype %s" % gd)
+    w3 = dict(w, genomemat=G, u_a=u, u_a_dtype=ud, genomemat_dtype=gd, layouts=[glay, ulay])
     Hm, status, blocks, icls_bin = run_consumer(ctx, "haplomat", "haplomat", L, icls_app, coords, w3,
-                                                lambda: H.haplomat(nblk, G.copy(), genpos.copy(), stix.copy(), spix.copy(), lens.copy(), u.copy()))
+                                                lambda: H.haplomat(nblk, G_in, genpos.copy(), stix.copy(), spix.copy(), lens.copy(), u_in))
     if Hm is not None:
-        check_block_matrix(ctx, "haplomat", Hm, G, u, nblk, blocks, icls_bin, coords, w3, status)
+        check_block_matrix(ctx, "haplomat", Hm, G, u, nblk, blocks, icls_bin + vcls, coords, w3, status, rtol=dtype_rtol(ud))
 
 
 def subset_args(ndecn, nspace, nobj):
@@ -394,18 +453,28 @@ def case_problems(ctx, c):
     ctx.case("problems:" + L["class"], L["genpos"], L["lens"], nblk, G, u, trivial=m < 2 or nblk < 2)
     if c % 101 == 0:
         ctx.sample(dict(summary(L, nph, n, u, uk), fn="OHV/OPV/GB problems"))
-    pg = S["PG"](G.copy(), taxa=numpy.array(["t%02d" % i for i in range(n)], dtype=object), vrnt_chrgrp=L["chrgrp"].copy(),
-                 vrnt_phypos=numpy.arange(1, m + 1, dtype="int64") * 10, vrnt_genpos=L["genpos"].copy(), ploidy=nph)
+    extra = {}
+    if g.random() < 0.4:     # optional metadata that must not matter
+        extra = dict(taxa_grp=numpy.sort(g.integers(0, 3, n)).astype("int64"),
+                     vrnt_name=numpy.array(["snp%03d" % i for i in range(m)], dtype=object),
+                     vrnt_xoprob=numpy.clip(g.uniform(0, 0.5, m), 0, 0.5))
+    G_in, glay = relayout(g, G.copy())
+    pg = S["PG"](G_in, taxa=numpy.array(["t%02d" % i for i in range(n)], dtype=object), vrnt_chrgrp=L["chrgrp"].copy(),
+                 vrnt_phypos=numpy.arange(1, m + 1, dtype="int64") * 10, vrnt_genpos=L["genpos"].copy(), ploidy=nph, **extra)
     pg.group_vrnt()
-    mod = S["GM"](beta=g.normal(size=(1, t)), u_misc=None, u_a=u.copy(), trait=numpy.array(["y%d" % i for i in range(t)], dtype=object))
+    mod, mcls, minfo = gen_model(g, S, u)
+    # problems made by the selection protocols' problem() instead of from_pgmat_gpmod (their domain: >= 2 taxa)
+    via_protocol = bool(g.random() < 0.3) and n >= 2
     # what the problems see (raw inputs of the oracle)
     G = numpy.array(pg.mat); genpos = numpy.array(pg.vrnt_genpos, dtype=float)
     if not (numpy.array_equal(G.shape, (nph, n, m)) and numpy.array_equal(genpos, L["genpos"]) and numpy.array_equal(pg.vrnt_chrgrp, L["chrgrp"])):
         ctx.sumnote("harness: grouping changed the marker order (case skipped)")
         return
-    w = {"genpos": genpos, "chrgrp_stix": L["stix"], "chrgrp_spix": L["spix"], "nhaploblk": nblk, "genomemat": G, "u_a": u}
+    w = {"genpos": genpos, "chrgrp_stix": L["stix"], "chrgrp_spix": L["spix"], "nhaploblk": nblk, "genomemat": G, "u_a": u,
+         "model": minfo, "genome_layout": glay, "via_protocol": via_protocol}
     icls_app = O.apportion_class(genpos, L["stix"], L["spix"])
     ploidy = nph
+    proto_args = dict(ntrait=t, nhaploblk=nblk, ncross=1, nmating=1, nprogeny=1, nobj=t)
     sc = O.value_scale(u, ploidy); eps = O.tol(sc)
 
     # ------------------------------------------------ OHV
@@ -415,6 +484,7 @@ def case_problems(ctx, c):
     unique = bool(g.random() < 0.6)
     site = defsite(Mix, "_calc_haplomat")
     Hm, status, blocks, icls = run_consumer(ctx, site, site, L, icls_app, coords, w, lambda: Mix._calc_haplomat(pg, mod, nblk))
+    icls += mcls
     V = None
     if Hm is not None:
         V = check_block_matrix(ctx, site, Hm, G, u, nblk, blocks, icls, coords, w, status)
@@ -439,15 +509,31 @@ def case_problems(ctx, c):
             cls = getattr(MOHV, "OptimalHaploidValue%sSelectionProblem" % kind)
             k = int(g.integers(1, min(ncfg, 4) + 1))
             args = subset_args(k, ncfg, t) if kind == "Subset" else vector_args(kind, ncfg, t)
-            p, status, blocks2, icls2 = run_consumer(
-                ctx, defsite(cls, "from_pgmat_gpmod"), defsite(Mix, "_calc_haplomat"), L, icls_app, coords, w,
-                lambda: cls.from_pgmat_gpmod(nparent=nparent, nhaploblk=nblk, unique_parents=unique, pgmat=pg, gpmod=mod, **args))
+            if via_protocol:
+                pcls = getattr(S["POHV"], "OptimalHaploidValue%sSelection" % kind)
+                make, msite = (lambda: pcls(unique_parents=unique, nparent=nparent, **proto_args).problem(pg, None, None, None, mod, 0, 1)), \
+                    "%s.problem" % pcls.__name__
+            else:
+                make, msite = (lambda: cls.from_pgmat_gpmod(nparent=nparent, nhaploblk=nblk, unique_parents=unique, pgmat=pg, gpmod=mod, **args)), \
+                    defsite(cls, "from_pgmat_gpmod")
+            p, status, blocks2, icls2 = run_consumer(ctx, msite, defsite(Mix, "_calc_haplomat"), L, icls_app, coords, w, make)
+            icls2 += mcls
             if p is None:
                 continue
+            if via_protocol:
+                ctx.hook("problem built by a selection protocol")
+                if not ctx.check("C18.ohv", type(p) is cls, msite, "protocol builds the matching OHV problem class", icls2, witness=dict(w, got=type(p).__name__), coords=coords):
+                    continue
             om = numpy.asarray(p.ohvmat); xm = numpy.asarray(p.decn_space_xmap)
             fin = ctx.check("C18.finite", bool(numpy.all(numpy.isfinite(om))), defsite(cls, "from_pgmat_gpmod"), "OHV finite", icls2,
                             witness=dict(wx, ohvmat=om), coords=coords)
             if status != "ok" or not fin:
+                continue
+            import itertools
+            want = list((itertools.combinations if unique else itertools.combinations_with_replacement)(range(n), nparent))
+            if not ctx.check("C18.ohv", xm.ndim == 2 and sorted(map(tuple, xm.tolist())) == sorted(want), msite,
+                             "decn_space_xmap lists exactly the requested parent tuples (nparent, unique_parents honoured)", icls2,
+                             witness=dict(w, decn_space_xmap=xm, nparent=nparent, unique_parents=unique), coords=coords):
                 continue
             exp2 = numpy.array([O.best_sum(V, xm[r], ploidy) for r in range(xm.shape[0])]) if xm.ndim == 2 else None
             okm = ctx.check("C18.ohv", exp2 is not None and blocks2 == blocks and close(ctx, "ohv error", om, exp2, eps),
@@ -479,8 +565,16 @@ def case_problems(ctx, c):
     k = int(g.integers(1, n + 1))
     x = numpy.sort(g.choice(n, k, replace=False)).astype(int) if g.random() < 0.5 else g.choice(n, k, replace=False).astype(int)
     site = defsite(cls, "_calc_haplomat")
-    p, status, blocks, icls = run_consumer(ctx, defsite(cls, "from_pgmat_gpmod"), site, L, icls_app, coords, w,
-                                           lambda: cls.from_pgmat_gpmod(nhaploblk=nblk, pgmat=pg, gpmod=mod, **subset_args(k, n, t)))
+    if via_protocol:
+        pcls = S["POPV"].OptimalPopulationValueSubsetSelection
+        make, msite = (lambda: pcls(nparent=k, **proto_args).problem(pg, None, None, None, mod, 0, 1)), "%s.problem" % pcls.__name__
+    else:
+        make, msite = (lambda: cls.from_pgmat_gpmod(nhaploblk=nblk, pgmat=pg, gpmod=mod, **subset_args(k, n, t))), defsite(cls, "from_pgmat_gpmod")
+    p, status, blocks, icls = run_consumer(ctx, msite, site, L, icls_app, coords, w, make)
+    icls += mcls
+    if p is not None and type(p) is not cls:
+        ctx.check("C18.opv", False, msite, "protocol builds the OPV problem class", icls, witness=dict(w, got=type(p).__name__), coords=coords)
+        p = None
     if p is not None:
         V = check_block_matrix(ctx, site, p.haplomat, G, u, nblk, blocks, icls, coords, w, status)
         if V is not None:
@@ -500,8 +594,17 @@ def case_problems(ctx, c):
     cls = MGB.GenotypeBuilderSubsetSelectionProblem
     nbest = 1 if g.random() < 0.4 else int(g.integers(1, k + 1))
     site = defsite(cls, "_calc_haplomat")
-    p, status, blocks, icls = run_consumer(ctx, defsite(cls, "from_pgmat_gpmod"), site, L, icls_app, coords, w,
-                                           lambda: cls.from_pgmat_gpmod(pgmat=pg, gpmod=mod, nhaploblk=nblk, nbestfndr=nbest, **subset_args(k, n, t)))
+    if via_protocol:
+        pcls = S["PGB"].GenotypeBuilderSubsetSelection
+        make, msite = (lambda: pcls(nparent=k, nbestfndr=nbest, **proto_args).problem(pg, None, None, None, mod, 0, 1)), "%s.problem" % pcls.__name__
+    else:
+        make, msite = (lambda: cls.from_pgmat_gpmod(pgmat=pg, gpmod=mod, nhaploblk=nblk, nbestfndr=nbest, **subset_args(k, n, t))), \
+            defsite(cls, "from_pgmat_gpmod")
+    p, status, blocks, icls = run_consumer(ctx, msite, site, L, icls_app, coords, w, make)
+    icls += mcls
+    if p is not None and type(p) is not cls:
+        ctx.check("C18.gb", False, msite, "protocol builds the GB problem class", icls, witness=dict(w, got=type(p).__name__), coords=coords)
+        p = None
     if p is not None:
         V = check_block_matrix(ctx, site, p.haplomat, G, u, nblk, blocks, icls, coords, w, status)
         if V is not None:
@@ -516,7 +619,209 @@ def case_problems(ctx, c):
                           icls + ("/nbestfndr=1 (OPV)" if nbest == 1 else "/nbestfndr>1"), witness=dict(wx, got=lv, expected=exp), coords=coords)
 
 
-FAMILIES = {"helpers": (case_helpers, 20000, 400000), "problems": (case_problems, 10000, 160000)}
+# ---------------------------------------------------------------- long-lived problem objects
+def gen_state(g, shape, sk=None):
+    """Arbitrary finite state array (block values / OHV matrix): value class x dtype x memory layout."""
+    sk = sk or str(g.choice(["gauss", "gauss", "integers", "ties", "negative", "float32", "int64"]))
+    if sk in ("integers", "int64"):
+        a = g.integers(-4, 5, shape).astype("int64" if sk == "int64" else float)
+    elif sk == "ties":
+        a = g.choice([-1.5, 0.0, 0.25, 2.0], shape)
+    elif sk == "negative":
+        a = -numpy.abs(g.normal(size=shape)) - 0.1
+    else:
+        a = g.normal(size=shape) * float(g.choice([1.0, 1.0, 1e3, 1e-3]))
+    if sk == "float32":
+        a = a.astype("float32")
+    a, lay = relayout(g, a)
+    return a, sk, lay
+
+
+def state_oracle(kind, state, x, nbest):
+    """Latent vector demanded by the statement for the object's CURRENT public state (negated, minimisation convention)."""
+    A = numpy.asarray(state, dtype=float)
+    if kind == "OPV":
+        return -O.best_sum(A, x, A.shape[0])
+    if kind == "GB":
+        return -O.gb_value(A, x, nbest, A.shape[0])
+    if kind == "OHV-Subset":
+        return -A[numpy.asarray(x, dtype=int)].sum(0) / float(len(x))
+    xv = numpy.asarray(x, dtype=float)
+    return -(xv / xv.sum()) @ A
+
+
+def case_lifecycle(ctx, c):
+    """A problem object is kept alive, its public properties are changed through setters (or its state array is written
+    in place), it is copied, and it is re-evaluated: every evaluation must equal the oracle on the CURRENT public state."""
+    import copy
+    S = setup()
+    g = ctx.rng("lifecycle", c)
+    coords = [c, "lifecycle"]
+    kind = str(g.choice(["OPV", "OPV", "GB", "GB", "OHV-Subset", "OHV-Real", "OHV-Integer", "OHV-Binary"]))
+    hap = kind in ("OPV", "GB")
+    t = int(g.integers(1, 4))
+    n = int(g.integers(2, 8))
+    attr = "haplomat" if hap else "ohvmat"
+    if hap:
+        cls = S["MOPV"].OptimalPopulationValueSubsetSelectionProblem if kind == "OPV" else S["MGB"].GenotypeBuilderSubsetSelectionProblem
+        k = int(g.integers(1, n + 1))
+        nspace = n
+    else:
+        cls = getattr(S["MOHV"], "OptimalHaploidValue%sSelectionProblem" % kind.split("-")[1])
+        nparent = int(g.integers(1, 3))
+        xmap = numpy.asarray(cls._calc_xmap(n, nparent, bool(g.random() < 0.5)))
+        nspace = xmap.shape[0]
+        k = int(g.integers(1, min(nspace, 4) + 1))
+    nbest = int(g.integers(1, k + 1)) if kind == "GB" else None
+
+    def new_state(same_shape_as=None):
+        if hap:
+            shp = same_shape_as or (int(g.choice([1, 2, 2, 3, 4])), n, int(g.integers(1, 7)), t)
+        else:
+            shp = (nspace, t)
+        return gen_state(g, shp)
+
+    # ---- construction: directly from a state array, or from a genotype matrix and a model
+    built = "constructor"
+    prob = None
+    try:
+        if g.random() < 0.35:
+            built = "from_pgmat_gpmod"
+            L = gen_layout(g)
+            m = L["m"]
+            nph = int(g.choice([1, 2, 2, 3]))
+            G = g.integers(0, 2, (nph, n, m)).astype("int8")
+            u = g.normal(size=(m, t))
+            pg = S["PG"](G, taxa=numpy.array(["t%02d" % i for i in range(n)], dtype=object), vrnt_chrgrp=L["chrgrp"].copy(),
+                         vrnt_phypos=numpy.arange(1, m + 1, dtype="int64") * 10, vrnt_genpos=L["genpos"].copy(), ploidy=nph)
+            pg.group_vrnt()
+            mod, _, _ = gen_model(g, S, u)
+            if kind == "OPV":
+                prob = cls.from_pgmat_gpmod(nhaploblk=L["nblk"], pgmat=pg, gpmod=mod, **subset_args(k, n, t))
+            elif kind == "GB":
+                prob = cls.from_pgmat_gpmod(pgmat=pg, gpmod=mod, nhaploblk=L["nblk"], nbestfndr=nbest, **subset_args(k, n, t))
+            else:
+                uq = bool(g.random() < 0.5)
+                xmap = numpy.asarray(cls._calc_xmap(n, nparent, uq)); nspace = xmap.shape[0]; k = min(k, nspace)
+                args = subset_args(k, nspace, t) if kind == "OHV-Subset" else vector_args(kind.split("-")[1], nspace, t)
+                prob = cls.from_pgmat_gpmod(nparent=nparent, nhaploblk=L["nblk"], unique_parents=uq, pgmat=pg, gpmod=mod, **args)
+        else:
+            st0, sk0, lay0 = new_state()
+            if kind == "OPV":
+                prob = cls(haplomat=st0, **subset_args(k, n, t))
+            elif kind == "GB":
+                prob = cls(haplomat=st0, nbestfndr=nbest, **subset_args(k, n, t))
+            else:
+                args = subset_args(k, nspace, t) if kind == "OHV-Subset" else vector_args(kind.split("-")[1], nspace, t)
+                prob = cls(ohvmat=st0, decn_space_xmap=xmap, **args)
+    except Exception as e:   # construction failures are judged by the problems family (partition monitors attached there)
+        ctx.raised("lifecycle: construction (%s, %s)" % (kind, built), e)
+        return
+    ctx.case("lifecycle:%s/%s" % (kind, built), kind, numpy.asarray(getattr(prob, attr)), k, trivial=False)
+    if c % 101 == 0:
+        ctx.sample({"fn": "long-lived %s problem" % kind, "built_by": built, "state_shape": list(numpy.shape(getattr(prob, attr))), "ndecn": k})
+
+    def draw_x(p):
+        if hap or kind == "OHV-Subset":
+            return g.choice(nspace, k, replace=False).astype(int)
+        cnt = numpy.zeros(nspace); cnt[g.choice(nspace, k, replace=False)] = 1
+        sub = kind.split("-")[1]
+        return {"Real": cnt * g.uniform(0.1, 1.0, nspace), "Integer": (cnt * g.integers(1, 6, nspace)).astype(int), "Binary": cnt.astype(int)}[sub]
+
+    def evaluate(p, after):
+        """Judge one evaluation of ``p`` against its current public state."""
+        pc = type(p)
+        state = getattr(p, attr)
+        nb = int(p.nbestfndr) if kind == "GB" else None
+        A = numpy.asarray(state, dtype=float)
+        w = {"kind": kind, "built_by": built, "history": list(history), attr: state, "nbestfndr": nb}
+        if hap:
+            ctx.check("C18.state.props", int(p.ploidy) == A.shape[0] and int(p.nlatent) == A.shape[3], defsite(pc, "ploidy"),
+                      "ploidy and nlatent are those of the current haplomat", after, witness=dict(w, ploidy=p.ploidy, nlatent=p.nlatent), coords=coords)
+            ploidy = A.shape[0]
+            sc = ploidy * A.shape[2] * float(numpy.abs(A).max()) if A.size else 0.0
+        else:
+            ctx.check("C18.state.props", int(p.nlatent) == A.shape[1], defsite(pc, "nlatent"), "nlatent is that of the current ohvmat", after,
+                      witness=dict(w, nlatent=p.nlatent), coords=coords)
+            sc = float(numpy.abs(A).max()) if A.size else 0.0
+        eps = dtype_rtol(numpy.asarray(state).dtype) * sc + O.ATOL
+        for rep in range(2):
+            x = draw_x(p)
+            exp = state_oracle(kind, state, x, nb)
+            wx = dict(w, x=x, expected=exp)
+            site = defsite(pc, "latentfn")
+            ok, lv = guarded(ctx, site, after, coords, lambda: p.latentfn(x), wx)
+            if not ok or not ctx.check("C18.state.latentfn", close(ctx, "state latentfn error", lv, exp, eps), site,
+                                       "== oracle on the object's current public state", after, witness=dict(wx, got=lv), coords=coords):
+                continue        # evalfn is derived from latentfn: one root cause, one key
+            site = defsite(pc, "evalfn")
+            ok, ev = guarded(ctx, site, after, coords, lambda: p.evalfn(x), wx)
+            if ok:
+                wt = numpy.asarray(p.obj_wt, dtype=float)
+                good = isinstance(ev, tuple) and len(ev) == 3 and close(ctx, "state evalfn error", ev[0], wt * exp, eps * max(1.0, float(numpy.abs(wt).max())))
+                ctx.check("C18.state.evalfn", good, site, "objectives == current obj_wt * oracle latent vector (identity transformation)", after,
+                          witness=dict(wx, got=ev, obj_wt=wt), coords=coords)
+
+    history = ["fresh"]
+    evaluate(prob, "fresh object")
+    nops = int(g.integers(2, 6))
+    for _ in range(nops):
+        ops = ["set state (same shape)", "write state in place", "set obj_wt", "deepcopy", "evaluate again"]
+        if hap:
+            ops += ["set state (other ploidy and block count)", "set state (other ploidy and block count)"]
+        if kind == "GB":
+            ops += ["set nbestfndr"]
+        op = str(g.choice(ops))
+        history.append(op)
+        try:
+            if op == "set state (same shape)":
+                new, _, _ = new_state(tuple(numpy.shape(getattr(prob, attr))) if hap else None)
+                setattr(prob, attr, new)
+                ctx.check("C18.state.props", getattr(prob, attr) is new or numpy.array_equal(getattr(prob, attr), new), defsite(type(prob), attr),
+                          "getter returns the matrix that was set", "after %s setter" % attr, coords=coords)
+                evaluate(prob, "after %s setter" % attr)
+            elif op == "set state (other ploidy and block count)":
+                new, _, _ = new_state()
+                setattr(prob, attr, new)
+                ctx.check("C18.state.props", getattr(prob, attr) is new or numpy.array_equal(getattr(prob, attr), new), defsite(type(prob), attr),
+                          "getter returns the matrix that was set", "after %s setter (shape changed)" % attr, coords=coords)
+                evaluate(prob, "after %s setter (shape changed)" % attr)
+            elif op == "write state in place":
+                cur = getattr(prob, attr)
+                if not cur.flags.writeable:
+                    continue
+                repl, _, _ = gen_state(g, cur.shape, "gauss")
+                cur[...] = repl.astype(cur.dtype)
+                evaluate(prob, "after in-place write to %s" % attr)
+            elif op == "set obj_wt":
+                prob.obj_wt = g.choice([-1.0, 1.0, 0.5, -2.0, 0.0], t).astype(float)
+                evaluate(prob, "after obj_wt setter")
+            elif op == "set nbestfndr":
+                prob.nbestfndr = int(g.integers(1, k + 1))
+                evaluate(prob, "after nbestfndr setter")
+            elif op == "evaluate again":
+                evaluate(prob, "repeated evaluation")
+            elif op == "deepcopy":
+                try:
+                    cp = copy.deepcopy(prob) if g.random() < 0.7 else copy.copy(prob)
+                except Exception as e:
+                    ctx.raised("lifecycle: copy of the problem object", e)
+                    continue
+                new, _, _ = new_state(tuple(numpy.shape(getattr(prob, attr))) if hap and g.random() < 0.5 else None)
+                setattr(cp, attr, new)
+                evaluate(cp, "copy after its own %s setter" % attr)
+                evaluate(prob, "original after its copy was changed")
+        except Exception as e:
+            ctx.raised("lifecycle: %s" % op, e)
+            ctx.ok("C18.returns")
+            ctx.violation("C18.returns", "%s (%s)" % (type(prob).__name__, op), "raised %s" % type(e).__name__, "long-lived object",
+                          what="%s on a long-lived %s raised %s: %s" % (op, type(prob).__name__, type(e).__name__, str(e)[:160]),
+                          witness={"history": history}, coords=coords)
+            return
+
+
+FAMILIES = {"helpers": (case_helpers, 20000, 400000), "problems": (case_problems, 10000, 160000),
+            "lifecycle": (case_lifecycle, 6000, 100000)}
 
 
 def run_shard(ctx):
